@@ -44,19 +44,30 @@ type c17Screen interface {
 // recording console: a plain grid that stores what the terminal tells it (in-range semantics of
 // the shipped text console: Write stores the triple, Scroll moves lines, Fill stores blanks).
 type c17RecCons struct {
-	w, h  uint32
-	cells []int
+	w, h   uint32
+	fg, bg uint8 // the default colours this console reports
+	cells  []int
 }
 
-func newC17RecCons(w, h uint32) *c17RecCons {
-	c := &c17RecCons{w: w, h: h, cells: make([]int, w*h)}
+// c17RecDefault pins the default colours of the next recording consoles (-1: drawn from the
+// configuration generator: half of them the shipped consoles' 7 / 0, the others any pair).
+var c17RecDefault = [2]int{-1, -1}
+
+func newC17RecCons(w, h uint32, rng *rand.Rand) *c17RecCons {
+	c := &c17RecCons{w: w, h: h, fg: 7, bg: 0, cells: make([]int, w*h)}
+	if rng != nil && rng.Intn(2) == 1 {
+		c.fg, c.bg = uint8(rng.Intn(256)), uint8(rng.Intn(256))
+	}
+	if c17RecDefault[0] >= 0 {
+		c.fg, c.bg = uint8(c17RecDefault[0]), uint8(c17RecDefault[1])
+	}
 	for i := range c.cells {
 		c.cells[i] = c17Code('?', 9, 9) // something the terminal never writes, so a redraw is visible
 	}
 	return c
 }
 func (c *c17RecCons) Dimensions(console.Dimension) (uint32, uint32) { return c.w, c.h }
-func (c *c17RecCons) DefaultColors() (uint8, uint8)                 { return 7, 0 }
+func (c *c17RecCons) DefaultColors() (uint8, uint8)                 { return c.fg, c.bg }
 func (c *c17RecCons) Fill(x, y, w, h uint32, fg, bg uint8) {
 	// the cells of the rectangle [x, x+w) x [y, y+h) that exist
 	for yy := uint64(1); yy <= uint64(c.h); yy++ {
@@ -132,7 +143,7 @@ func (p *c17Proxy) Write(ch byte, fg, bg uint8, x, y uint32) {
 // c17MakeConsole builds a console of w x h cells of the given kind.  The real consoles are
 // registered by c18_consoles_shim.go.
 var c17MakeConsole = map[string]func(w, h uint32, rng *rand.Rand) c17Screen{
-	"rec": func(w, h uint32, _ *rand.Rand) c17Screen { return newC17RecCons(w, h) },
+	"rec": func(w, h uint32, rng *rand.Rand) c17Screen { return newC17RecCons(w, h, rng) },
 }
 
 func c17Observe(e map[string]interface{}, vt *VT, p *c17Proxy, cp bool) {
